@@ -136,6 +136,46 @@ def leg_b(rep, n_beh, n_steps, acts, judged=None, seed_off=15, Tmax=10, max_step
     rep.extra['leg_B'] = {'behaviours': n_beh, 'events': len(recs), 'events_per_action': per_act}
 
 
+def leg_repo_tests(rep):
+    """Leg B on the repository's OWN tests: run them under an external tracer and validate every recorded call with TraceTraj."""
+    import json
+    import os
+    import subprocess
+    src = os.environ.get('GEMDAT_SRC', '/repo/src')
+    tmp = core.scratch('repotrace-')
+    out = tmp / 'trace.ndjson'
+    try:
+        env = dict(os.environ)
+        env.update({'VERIF_TRACE_OUT': str(out), 'PYTHONPATH': f'{core.VERIF}:{src}', 'PYTHONHASHSEED': '0'})
+        p = subprocess.run(['/venv/bin/python', '-m', 'pytest', '-q', '-p', 'no:cacheprovider', '-p', 'harness.pytest_tracer',
+                            'tests/trajectory_test.py', 'tests/metrics_test.py', 'tests/orientations_test.py'],
+                           cwd='/repo', env=env, stdout=subprocess.PIPE, stderr=subprocess.STDOUT, text=True, timeout=900)
+        if not out.exists():
+            raise core.Machinery('tracer produced no trace\n' + p.stdout[-2000:])
+        recs = [json.loads(ln) for ln in open(out)]
+        meta = json.load(open(str(out) + '.meta'))
+    finally:
+        import shutil
+        shutil.rmtree(tmp, ignore_errors=True)
+    if not recs:
+        raise core.Machinery('empty trace from the repository tests')
+    verdicts = core.validate_traces('TraceTraj', recs, timeout=1200)
+    rep.add_trace_stats()
+    bad = set()
+    for rec, (v, act) in zip(recs, verdicts):
+        rep.evaluations += 1
+        rep.nontrivial += 1
+        if v != 'ok' and rec['b'] not in bad:
+            bad.add(rec['b'])
+            rep.violation({'kind': 'leg-B-repo-tests', 'clause': v, 'test': meta['tests'].get(str(rec['b'])),
+                           'event': {k: rec[k] for k in rec if k not in ('objs', 'G')}})
+    rep.traces += len({r['b'] for r in recs})
+    rep.extra['repo_tests_traced'] = {'tests_with_events': len({r['b'] for r in recs}), 'events': len(recs),
+                                      'untraceable_tests': len(meta['untraceable'])}
+    rep.sample({'leg': 'B-repo-tests', 'test': meta['tests'].get(str(recs[0]['b'])),
+                'events': [{k: r[k] for k in r if k not in ('objs', 'G', 'ret', 'c')} for r in recs[:6]]})
+
+
 def run(rep):
     quick = rep.tier == 'quick'
     rep.rule = ('Leg M: every call sequence up to MaxDepth over <= 3 live objects on the implementation-shaped model (one coords array, '
@@ -145,11 +185,13 @@ def run(rep):
                 'random call sequences (construct from positions / displacements with lattice shifts, positions, displacements, cumulative, '
                 'distances, slices with any start/stop/step incl. negative and None, index lists, filter str/list, split, extend, msd/volume/'
                 'metrics/structure/centre-of-mass queries, drift) in 6 cell families x 3 orientations; after every call the projection of '
-                'EVERY live object is validated by TraceTraj. Non-trivial = event on a store with > 1 object or a derivation/query.')
+                'EVERY live object is validated by TraceTraj; the repository\'s own trajectory / metrics / orientation tests are run under an external '
+                'tracer (harness/pytest_tracer.py, no source change) and every recorded call is validated the same way. Non-trivial = event on a store with > 1 object or a derivation/query.')
     rep.assumptions = ['constant-cell trajectories; coordinates on a /16 grid (exact in binary floating point), drift means on the /192 grid',
                        'displacement-valued clauses are judged only when no coordinate moves by exactly half a cell (np.around half-to-even is ambiguous there)',
                        'objects are projected from the public attributes coords / coords_are_displacement / base_positions without calling methods']
     leg_m(rep, 5 if quick else 7)
     leg_a(rep, 3 if quick else 4)
     leg_b(rep, 60 if quick else 1000, 25 if quick else 30, ACTS)
+    leg_repo_tests(rep)
     rep.exhaustive = True
